@@ -167,6 +167,31 @@ CHECKS.append({
             "oracle; lgamma abstract.",
 })
 
+CHECKS.append({
+    "property_id": "C09",
+    "design_ref": "DESIGN.md 5 (C09)",
+    "technique": "Coq proof (trigonometric-polynomial identities: angle-shift rewriting + ring with sin^2 = 1 - cos^2) about the three evaluation kernels "
+                 "regenerated from rendering.py + interval-arithmetic translator validation; implementation-side symmetry oracle on image pairs",
+    "text": "Seven theorems (Props/C09.v), pointwise for ALL parameters, on the analytic Sersic kernel, the real-space Gaussians and the Fourier Gaussians: "
+            "theta+pi invariance; no dependence on theta at ellip=0; transpose and mirror covariance; translation (Fourier components pick up the shift "
+            "phase); theta+k*pi for every k.  The kernels are re-extracted and certified against the JAX code inside Coq each run.",
+    "note": "Trusted: Coq kernel, Interval, Reals axioms; translator unit Formulas.  The lifting from kernels to PSF-convolved images (FFT commutation, "
+            "Nyquist remainder for even N, the renderer's fixed oversampling box) is not proved: only the implementation-side oracle (tolerances of the "
+            "property text) covers it - it does catch e.g. the 3.1415 literal through the mirror law.",
+})
+CHECKS.append({
+    "property_id": "C02",
+    "design_ref": "DESIGN.md 5 (C02)",
+    "technique": "Coq proof (ring identities with sin^2+cos^2=1 on regenerated kernels; interval arithmetic for the enclosed-light fraction) + "
+                 "interval translator validation; implementation-side image-moment oracle against an independent float64 reference renderer",
+    "text": "Seven theorems (Props/C02.v) for ALL parameters: X=column, Y=row at integer pixel centres; all three kernels are point-symmetric about (xc,yc) "
+            "and the Fourier phase is exactly -2pi(FX xc + FY yc); along (-sin theta, cos theta) the elliptical radius is |w|/r_eff, along (cos theta, sin "
+            "theta) it is |w|/((1-ellip) r_eff) (theta from +y towards -x, axis ratio 1-ellip, r_eff the semi-major axis of z=1), modulo pi; real-space and "
+            "Fourier Gaussians carry the same covariance; P(2n,b_n) in [0.494,0.5005] for 2n=2..12 (partial: integer 2n).",
+    "note": "Trusted: Coq kernel, Interval, Reals axioms; translator units Formulas/Grid.  Not proved: the moment tolerances of the property (PSF sampling and "
+            "decomposition error), half-light for non-integer 2n, the reduction of enclosed light to P(2n,b_n); these are covered by the search oracle only.",
+})
+
 _PENDING = "check not built yet in this session (build order in DESIGN.md section 9); will be claimed once its Coq model, theorems and tie exist"
 NOT_APPLICABLE = [
     {"property_id": "C%02d" % i, "reason": _PENDING}
